@@ -714,6 +714,19 @@ func c17Clamp(c *Ctx, validate *ssa.Function) {
 			return
 		}
 		target = rootOf(base)
+		// `copy.F = clamp(copy.F, low, high)` through a clamp helper (v below low -> low, above high -> high, else v)
+		if hc, ok := st.Val.(*ssa.Call); ok && len(hc.Call.Args) == 3 {
+			if sc := ir.StaticCallee(hc); sc != nil && c.P.IsLib(sc) && isClampHelper(sc) {
+				if lf, _, isField := ir.LoadedField(hc.Call.Args[0]); isField && lf.Name == f.Name {
+					_, vsrc := describe(hc.Call.Args[0])
+					ldesc, lsrc := describe(hc.Call.Args[1])
+					udesc, usrc := describe(hc.Call.Args[2])
+					clamps = append(clamps, clamp{f.Name, true, ldesc, vsrc + "/" + lsrc, st})
+					clamps = append(clamps, clamp{f.Name, false, udesc, vsrc + "/" + usrc, st})
+					return
+				}
+			}
+		}
 		for _, g := range pd.ControlDeps(st.Block()) {
 			bin, ok := g.If.Cond.(*ssa.BinOp)
 			if !ok || !g.Branch {
@@ -927,8 +940,8 @@ func c17Options(c *Ctx, validate *ssa.Function) {
 				sprintf("%s stores a retry configuration that did not pass through Config.Validate: out-of-range values reach the executor", fname(fn)))
 		})
 	}
-	if n < 2 {
-		c.R.Break("expected both public retry options to store a configuration (found %d)", n)
+	if n < 1 { // (both options may install the configuration through one shared helper)
+		c.R.Break("no store of a retry configuration found (expected the public retry options to install one)")
 	}
 }
 
@@ -1998,4 +2011,47 @@ func c17ConfigImmutable(c *Ctx) {
 	if n == 0 {
 		c.R.Hold("R-config-immutable", "no store into a retry configuration outside construction code", "", "")
 	}
+}
+
+
+// isClampHelper: f(v, low, high) returns low on the true edge of v < low, high on the true edge of v > high, v otherwise.
+func isClampHelper(f *ssa.Function) bool {
+	if len(f.Params) != 3 || f.Signature.Results().Len() != 1 || f.Blocks == nil {
+		return false
+	}
+	v, low, high := f.Params[0], f.Params[1], f.Params[2]
+	gotLow, gotHigh, gotV := false, false, false
+	for _, b := range f.Blocks {
+		ret, ok := b.Instrs[len(b.Instrs)-1].(*ssa.Return)
+		if !ok || b == f.Recover {
+			continue
+		}
+		rv := ret.Results[0]
+		guards := flow.Guards(f, b)
+		has := func(op token.Token, x, y ssa.Value, branch bool) bool {
+			for _, g := range guards {
+				if bin, ok := g.If.Cond.(*ssa.BinOp); ok && bin.Op == op && bin.X == x && bin.Y == y && g.Branch == branch {
+					return true
+				}
+			}
+			return false
+		}
+		switch rv {
+		case ssa.Value(low):
+			if !has(token.LSS, v, low, true) {
+				return false
+			}
+			gotLow = true
+		case ssa.Value(high):
+			if !has(token.GTR, v, high, true) {
+				return false
+			}
+			gotHigh = true
+		case ssa.Value(v):
+			gotV = true
+		default:
+			return false
+		}
+	}
+	return gotLow && gotHigh && gotV
 }
